@@ -1,9 +1,14 @@
 (* C19 - Tokenisation ignores layout and comments and reports true positions.
-   PARTIAL: proved is that every token's start and end line is a line of the source, for every input and every
-   classification of non-ASCII code points; layout invariance and exact columns are decided per run by the LEX
-   correspondence (all eight token fields) and the direct position oracle. *)
+   Proved, for every input and every classification of non-ASCII code points:
+   - positions (tokens_are_located): line, byte column and character column of every token are those of its first character;
+     non-string tokens stand verbatim there and end at start + length;
+   - layout, first half (token_shapes_ignore_positions, layout_before_a_token_is_ignored, leading_layout_is_ignored): the
+     sequence of token types and literals is a function of the remaining characters only, and any run of whitespace and
+     complete comments in front of the point where the lexer starts a token changes nothing.
+   PARTIAL: that inserting layout directly after a token does not change the tokens before it ("the scanners stop at
+   whitespace") is not proved; it is decided per run by the LEXPAIR correspondence (lexeme sequences in two layouts). *)
 From Coq Require Import List ZArith Bool.
-From Pory Require Import Lexer LexInv Tables TablesOK.
+From Pory Require Import Lexer LexInv LexLayout LexPos Tables TablesOK.
 Import ListNotations.
 Local Open Scope Z_scope.
 
@@ -17,3 +22,41 @@ Print Assumptions token_lines_in_range_partial.
 Theorem keywords_are_the_go_table : go_keywords = keywords.
 Proof. exact keywords_agree. Qed.
 Print Assumptions keywords_are_the_go_table.
+
+
+(* ---------- positions ---------- *)
+Theorem tokens_are_located :
+  forall is_letter_hi is_digit_hi is_space_hi (s : text),
+    Forall (fun tk => ttype tk = EOF \/ located s tk) (lex is_letter_hi is_digit_hi is_space_hi s).
+Proof. exact LexPos.tokens_are_located. Qed.
+Print Assumptions tokens_are_located.
+
+(* ---------- layout ---------- *)
+(* types and literals do not depend on the position counters: two lexer states with the same remaining characters
+   produce the same token types and literals (with any fuel) *)
+Theorem token_shapes_ignore_positions :
+  forall is_letter_hi is_digit_hi is_space_hi f l l', chs l = chs l' ->
+    map shape (lex_all is_letter_hi is_digit_hi is_space_hi f l) = map shape (lex_all is_letter_hi is_digit_hi is_space_hi f l').
+Proof. intros hl hd hs f l l' E. apply lex_all_leq. apply sim_leq. exact E. Qed.
+Print Assumptions token_shapes_ignore_positions.
+
+(* a gap (whitespace characters and '#' / '//' comments closed by their newline, in any mix) in front of the point where
+   the lexer is about to read a token - at the start of the file or after any number of tokens - is ignored *)
+Theorem layout_before_a_token_is_ignored :
+  forall is_letter_hi is_digit_hi is_space_hi f g l l', gap g -> chs l = g ++ chs l' ->
+    map shape (lex_all is_letter_hi is_digit_hi is_space_hi f l) = map shape (lex_all is_letter_hi is_digit_hi is_space_hi f l').
+Proof. intros hl hd hs f g l l' G E. apply lex_all_leq. apply (gap_leq g); assumption. Qed.
+Print Assumptions layout_before_a_token_is_ignored.
+
+Theorem leading_layout_is_ignored :
+  forall is_letter_hi is_digit_hi is_space_hi g s, gap g ->
+    map shape (lex is_letter_hi is_digit_hi is_space_hi (g ++ s)) = map shape (lex is_letter_hi is_digit_hi is_space_hi s).
+Proof. exact lex_leading_layout. Qed.
+Print Assumptions leading_layout_is_ignored.
+
+(* the lexer always terminates with fuel to spare: every token that is not the final EOF consumes a character *)
+Theorem lexer_progress :
+  forall is_letter_hi is_digit_hi is_space_hi l ts l', next_token_aux is_letter_hi is_digit_hi is_space_hi l = (ts, l', false) ->
+    (List.length (chs l') < List.length (chs l))%nat.
+Proof. exact next_token_progress. Qed.
+Print Assumptions lexer_progress.
